@@ -23,7 +23,8 @@ TECHNIQUE = "Lean 4 proof (stack = fold, splice semantics) + differential corres
 RULE = ("documents x stacks of 0..3 probes (tag probes appending their tag to every entry key: order-sensitive; splice probes "
         "returning None / [] / the block / lists or tuples of k blocks / a generator / an int / a collection with a non-block, "
         "per block class) in every argument position (parse_stack, append_middleware, unparse_stack, prepend_middleware, "
-        "both given); file cases: {utf-8, latin-1, gbk, utf-16} x path / file object. Non-trivial = stack non-empty.")
+        "both given); library-level middlewares on every document; shipped middlewares in the addition positions; a caller "
+        "changing the lists got from default_parse_stack() / default_unparse_stack() before the entry points are called; file cases: {utf-8, latin-1, gbk, utf-16} x path / file object. Non-trivial = stack non-empty.")
 EXHAUSTIVE = {"quick": False, "thorough": False}
 ASSUMPTIONS = ["probe middlewares stand for arbitrary middlewares (the model is parametric in them)"]
 PARTIAL = ["parse_file / write_file: file system and codecs are not modelled (python-only stream)"]
